@@ -751,7 +751,10 @@ def run_special(payload) -> Dict[str, Any]:
       predicate  instances of Predicate types (update_cache skips them)
       idattr     a Symbol class whose instances answer to the name `_id_` (catch-all __getattr__ / a field of that name)
       nestsel    a nested query that is only SELECTED (its variable is in no condition, the nested query is in no condition):
-                 an(set_of([an(entity(x))])) / an(entity(an(entity(x)))), evaluated again after instances were created / dropped"""
+                 an(set_of([an(entity(x))])) / an(entity(an(entity(x)))), evaluated again after instances were created / dropped
+      samename   two (three) different live classes with the same module-qualified name below T (class factory / type() called twice)
+      reclass    obj.__class__ reassigned after creation
+      virtual    a Symbol class registered as a virtual subclass (ABC.register) of an abstract Symbol type"""
     import copy
     import dataclasses
     import gc
@@ -856,6 +859,57 @@ def run_special(payload) -> Dict[str, Any]:
         gc.collect()
         exp["fresh query afterwards"] = [1, 2]
         got["fresh query afterwards"] = ids(A, [o for o in pool])
+    elif kind == "samename":
+        # two DIFFERENT live classes with the same __module__ and __qualname__ below the queried type (a class factory called
+        # twice / a class statement executed again / type(name, ...) called twice)
+        Base = dataclass(eq=False)(type(f"Component{tag}", (Symbol,), {"__annotations__": {"n": int}, "n": 0}))
+
+        def factory(weight):
+            if payload["variant"] == "factory":
+                @dataclass(eq=False)
+                class Part(Base):
+                    pass
+                return Part
+            return dataclass(eq=False)(type("Part", (Base,), {}))
+
+        Light, Heavy = factory(1), factory(2)
+        Sub = dataclass(eq=False)(type("Part", (Heavy,), {}))        # and one level deeper, same name again
+        pool = [Base(1), Light(2), Heavy(3), Light(4), Sub(5)]
+        for name, T in (("base", Base), ("first class", Light), ("second class", Heavy), ("third class", Sub)):
+            exp[name] = sorted(k for k, x in enumerate(pool) if isinstance(x, T))
+            got[name] = ids(T, pool)
+        pool[2] = None
+        gc.collect()
+        exp["after a drop: base"] = [0, 1, 3, 4]
+        got["after a drop: base"] = ids(Base, pool)
+        exp["registry: base"] = [0, 1, 3, 4]
+        num = {id(x): k for k, x in enumerate(pool)}
+        got["registry: base"] = sorted(num.get(id(v), -1) for v in SymbolGraph().get_instances_of_type(Base))
+    elif kind == "reclass":
+        # the class of a live instance is reassigned (obj.__class__ = Sub): it is an instance of the new class from then on
+        Task = dataclass(eq=False)(type(f"Task{tag}", (Symbol,), {"__annotations__": {"n": int}, "n": 0}))
+        Done = dataclass(eq=False)(type(f"DoneTask{tag}", (Task,), {}))
+        Other = dataclass(eq=False)(type(f"Other{tag}", (Symbol,), {"__annotations__": {"n": int}, "n": 0}))
+        pool = [Task(0), Other(1), Task(2)]
+        pool[0].__class__ = Done
+        pool[1].__class__ = Task
+        for name, T in (("Task", Task), ("DoneTask", Done), ("Other", Other)):
+            exp[name] = sorted(k for k, x in enumerate(pool) if isinstance(x, T))
+            got[name] = ids(T, pool)
+    elif kind == "virtual":
+        # a Symbol class registered as a VIRTUAL subclass (ABC.register) of an abstract Symbol type
+        from abc import ABC
+        Shape = type(f"Shape{tag}", (Symbol, ABC), {})
+        Circle = type(f"Circle{tag}", (Symbol,), {})
+        Square = type(f"Square{tag}", (Shape,), {})
+        Shape.register(Circle)
+        pool = [Circle(), Square(), Circle()]
+        for name, T in (("Shape", Shape), ("Circle", Circle), ("Square", Square)):
+            exp[name] = sorted(k for k, x in enumerate(pool) if isinstance(x, T))
+            got[name] = ids(T, pool)
+        exp["explicit domain accepts them"] = [0, 1, 2]
+        num = {id(x): k for k, x in enumerate(pool)}
+        got["explicit domain accepts them"] = sorted(num.get(id(v), -1) for v in an(entity(let(Shape, list(pool)))).evaluate())
     else:
         raise ValueError(kind)
     del pool
@@ -903,7 +957,8 @@ def _rule_classes():
 
 def run_rules(payload) -> Dict[str, Any]:
     """C20 over RULE queries (conclusions that infer new instances, refinement / alternative branches, a selected inferred
-    variable): build, evaluate `evaluations` times, drop everything, collect.  Reports per round how many of the instances the
+    variable): build, [start an evaluation and abandon it after `abandon` results] [run an evaluation that fails: `fail`],
+    evaluate `evaluations` times, drop everything, collect.  Reports per round how many of the instances the
     rule ranged over are still alive, how many instances a fresh domain-less variable still sees, and the graph's nodes."""
     import gc
     import weakref
@@ -937,6 +992,29 @@ def run_rules(payload) -> Dict[str, Any]:
                 with alternative(body.size > 5):
                     Add(views, inference(RDoor)(handle=handle, body=body))
         n = []
+        if payload.get("abandon") is not None:
+            # an evaluation consumed for `abandon` results and then abandoned (iterator dropped, never exhausted, never closed)
+            it = iter(query.evaluate())
+            part = [next(it) for _ in range(payload["abandon"])]
+            refs += [weakref.ref(d) for d in part]
+            del it, part
+            gc.collect()
+        if payload.get("fail"):
+            # an evaluation that FAILS half way: a condition raises on the second body (its size is not a number)
+            bodies[1].size = None
+            try:
+                part = []
+                it = iter(query.evaluate())
+                while True:
+                    part.append(next(it))
+            except StopIteration:
+                failed = False
+            except TypeError:
+                failed = True
+            refs += [weakref.ref(d) for d in part]
+            del part, it
+            bodies[1].size = 1
+            n.append("failed" if failed else "did not fail")
         for _ in range(payload["evaluations"]):
             res = list(query.evaluate())
             n.append(len(res))
@@ -1455,7 +1533,10 @@ def run(tier: str, seed: int, replay=None) -> int:
         specials = []
     else:
         specials = [{"kind": "paths"}, {"kind": "predicate"}, {"kind": "idattr", "variant": "getattr"},
-                    {"kind": "idattr", "variant": "field"}, {"kind": "nestsel", "form": "setof"}, {"kind": "nestsel", "form": "entity"}]
+                    {"kind": "idattr", "variant": "field"}, {"kind": "nestsel", "form": "setof"}, {"kind": "nestsel", "form": "entity"},
+                    {"kind": "samename", "variant": "factory"}, {"kind": "samename", "variant": "type"}, {"kind": "virtual"}]
+        # {"kind": "reclass"} is available for replay only: reassigning obj.__class__ is not one of the history operations the
+        # property quantifies over (dismissed in round 7, see the manifest note)
     for fid, k in special_jobs(rep, PROP, specials).items():
         inst[fid] = inst.get(fid, 0) + k
     scenario_jobs(rep, "lateclass", late, "a subclass of T defined AFTER a domain-less variable over T was evaluated: its instances "
